@@ -179,7 +179,13 @@ class _TreeVisitor(TagTemplateParserVisitor):
         if ctx.BOOLEAN_VALUE():
             return ctx.BOOLEAN_VALUE().getText().lower() == "true"
         elif ctx.NUMERIC_VALUE():
-            return int(ctx.NUMERIC_VALUE().getText())
+            try:
+                return int(ctx.NUMERIC_VALUE().getText())
+            except ValueError as error:
+                # Python refuses to convert overly long digit strings
+                raise TemplateSyntaxError(str(error)).with_location(
+                    location_from_symbol(ctx.NUMERIC_VALUE().getSymbol())
+                )
         elif ctx.STRING_VALUE():
             str_val = ctx.STRING_VALUE().getText()
             assert len(str_val) >= 2
@@ -222,7 +228,12 @@ class TemplateParser:
         parser.addErrorListener(TagTemplateErrorListener())
 
         visitor = _TreeVisitor()
-        root_pattern = visitor.visitRootPattern(parser.rootPattern())
+        try:
+            root_pattern = visitor.visitRootPattern(parser.rootPattern())
+        except RecursionError:
+            raise TemplateSyntaxError("template is nested too deeply").with_location(
+                Location(1, 0, len(text))
+            )
         if lexer_errors.first_error:
             # Characters not recognized by the lexer must not be silently dropped
             raise lexer_errors.first_error
